@@ -44,43 +44,57 @@ def charName? (c : Nat) : Option Txt :=
   else if c = 127 then some [82, 117, 98, 111, 117, 116]        -- Rubout
   else none
 
-/-- the spelled form of a character: its name, or the character itself when it is graphic -/
+/-- the spelled form of a character: its name; `u00hh` for the other control characters below U+0020
+    (slip's naming); else the character itself (UTF-8). Only scalar values are characters. -/
 def charSpelled (c : Nat) : Except Err Txt :=
   match charName? c with
   | some n => .ok n
-  | none => if 33 ≤ c ∧ c ≤ 126 then .ok [c] else .error .unsupported
+  | none =>
+    if c < 32 then .ok [117, 48, 48, digitChar (c / 16), digitChar (c % 16)]
+    else if isScalar c then .ok (utf8Enc c) else .error .unsupported
+
+/-- the character itself, as text -/
+def charText (c : Nat) : Except Err Txt := if isScalar c then .ok (utf8Enc c) else .error .unsupported
+
+/-- an integer under the printer variables of the call -/
+def printInt (T : EnglishTables) (n : Int) : Txt := showIntEnv T.printBase T.printRadix n
 
 def escapeStr : Txt → Txt
   | [] => []
   | c :: cs => if c = 34 ∨ c = 92 then 92 :: c :: escapeStr cs else c :: escapeStr cs
 
 /-- atoms: princ (`esc = false`) / prin1 (`esc = true`) -/
-def printAtom (esc : Bool) : Arg → Except Err Txt
+def printAtom (T : EnglishTables) (esc : Bool) : Arg → Except Err Txt
   | .nil => .ok wNil
-  | .int n => .ok (showInt n)
+  | .int n => .ok (printInt T n)
   | .str s => .ok (if esc then 34 :: escapeStr s ++ [34] else s)
   | .sym n => .ok n
-  | .chr c => if esc then (charSpelled c).map (fun t => 35 :: 92 :: t) else .ok [c]
+  | .chr c => if esc then (charSpelled c).map (fun t => 35 :: 92 :: t) else charText c
   | .cons _ _ => .error .unsupported
 
 /-- princ / prin1 of any argument. `inList` = we are printing the tail of a list. -/
-def printArg (esc : Bool) : Bool → Arg → Except Err Txt
+def printArg (T : EnglishTables) (esc : Bool) : Bool → Arg → Except Err Txt
   | false, .cons h t => do
-      let a ← printArg esc false h
-      let b ← printArg esc true t
+      let a ← printArg T esc false h
+      let b ← printArg T esc true t
       pure (40 :: a ++ b)
-  | false, x => printAtom esc x
+  | false, x => printAtom T esc x
   | true, .nil => .ok [41]
   | true, .cons h t => do
-      let a ← printArg esc false h
-      let b ← printArg esc true t
+      let a ← printArg T esc false h
+      let b ← printArg T esc true t
       pure (32 :: a ++ b)
   | true, x => do
-      let a ← printAtom esc x
+      let a ← printAtom T esc x
       pure ([32, 46, 32] ++ a ++ [41])
 
-def princ (a : Arg) : Except Err Txt := printArg false false a
-def prin1 (a : Arg) : Except Err Txt := printArg true false a
+def princ (T : EnglishTables) (a : Arg) : Except Err Txt := printArg T false false a
+def prin1 (T : EnglishTables) (a : Arg) : Except Err Txt := printArg T true false a
+
+/-- what ~D ~B ~O ~X ~nR print for an argument that is no integer: like ~A with `*print-base*` 10 and
+    `*print-radix*` nil (Common Lisp 22.3.2.2) -/
+def princDecimal (T : EnglishTables) (a : Arg) : Except Err Txt :=
+  princ { T with printBase := 10, printRadix := false } a
 
 /-! ## control string syntax -/
 
@@ -344,13 +358,13 @@ def intFmtOf (vs : List PVal) (off : Nat) (colon atm : Bool) : Except Err IntFmt
   pure { mincol, pad, comma, interval, colon, atm }
 
 /-- ~D ~B ~O ~X ~nR on any argument: integers by `renderInt`, everything else like ~A (left padded) -/
-def runIntDir (base : Nat) (vs : List PVal) (off : Nat) (colon atm : Bool) (st : St) : Except Err St := do
+def runIntDir (T : EnglishTables) (base : Nat) (vs : List PVal) (off : Nat) (colon atm : Bool) (st : St) : Except Err St := do
   let f ← intFmtOf vs off colon atm
   let (a, st1) ← st.next
   match a with
   | .int n => pure (st1.emit (renderInt base f n))
   | x => do
-    let t ← princ x
+    let t ← princDecimal T x
     pure (st1.emit (padLeft f.mincol f.pad t))
 
 def repeatDir (vs : List PVal) (c : Nat) (st : St) : Except Err St := do
@@ -366,18 +380,18 @@ def runSimple (T : EnglishTables) (k : Kind) (vs : List PVal) (colon atm : Bool)
     let minpad ← natParam vs 2 0
     let pad ← chrParam vs 3 32
     let (a, st1) ← st.next
-    let t ← if colon ∧ a = .nil then pure [40, 41] else (if k = .a then princ a else prin1 a)
+    let t ← if colon ∧ a = .nil then pure [40, 41] else (if k = .a then princ T a else prin1 T a)
     let t' ← padAS mincol colinc minpad pad atm t
     pure (st1.emit t')
-  | .d => runIntDir 10 vs 0 colon atm st
-  | .b => runIntDir 2 vs 0 colon atm st
-  | .o => runIntDir 8 vs 0 colon atm st
-  | .x => runIntDir 16 vs 0 colon atm st
+  | .d => runIntDir T 10 vs 0 colon atm st
+  | .b => runIntDir T 2 vs 0 colon atm st
+  | .o => runIntDir T 8 vs 0 colon atm st
+  | .x => runIntDir T 16 vs 0 colon atm st
   | .r =>
     if hasParam vs 0 then do
       let radix ← natParam vs 0 10
       if radix < 2 ∨ 36 < radix then .error .range
-      runIntDir radix vs 1 colon atm st
+      runIntDir T radix vs 1 colon atm st
     else do
       let (a, st1) ← st.next
       match a with
@@ -394,7 +408,7 @@ def runSimple (T : EnglishTables) (k : Kind) (vs : List PVal) (colon atm : Bool)
     match a with
     | .chr c => do
       let t ← match colon, atm with
-        | false, false => pure [c]
+        | false, false => charText c
         | true, _ => charSpelled c
         | false, true => (charSpelled c).map (fun t => 35 :: 92 :: t)
       pure (st1.emit t)
@@ -572,6 +586,15 @@ def defaultFuel : Nat := 100000
 def formatText (ctrl : Txt) (args : List Arg) : Except Err Txt := do
   let items ← parse ctrl
   let (st, _) ← runItems genTables defaultFuel items { args := args, pos := 0, out := [] }
+  pure st.out
+
+/-- the same under `*print-base*` = base, `*print-radix*` = radix (2 ≤ base ≤ 36, as slip enforces when
+    the variable is bound) -/
+def formatTextEnv (base : Nat) (radix : Bool) (ctrl : Txt) (args : List Arg) : Except Err Txt := do
+  if base < 2 ∨ 36 < base then .error .range
+  let items ← parse ctrl
+  let (st, _) ← runItems { genTables with printBase := base, printRadix := radix } defaultFuel items
+    { args := args, pos := 0, out := [] }
   pure st.out
 
 /-- destinations: `nil` returns the text; a stream (its content so far) receives it, the value is nil -/
